@@ -71,7 +71,7 @@ func (l *genericFileSessionLoader) Load() (*Session, error) {
 }
 
 func (l *genericFileSessionLoader) Store(s *Session) error {
-	dir, _ := filepath.Split(l.path)
+	dir := filepath.Dir(l.path) // "." for a bare file name, where Split would give ""
 	if !dry.FileExists(dir) {
 		return fmt.Errorf("%v: directory not found", dir)
 	}
